@@ -899,10 +899,13 @@ func (e *Engine) callBuiltin(caller *frame, callpos token.Pos, fn *ssa.Builtin, 
 			panic(pathAbort{"resource", "append beyond allocation bound"})
 		}
 		elemT := fn.Type().(*types.Signature).Params().At(0).Type().Underlying().(*types.Slice).Elem()
-		for _, x := range extra {
-			arg0 = append(arg0, copyVal(elemT, x))
+		// the appended elements are the ones extra held when the operation
+		// started, also when both operands share storage (memmove semantics)
+		snap := make([]value, len(extra))
+		for i, x := range extra {
+			snap[i] = copyVal(elemT, x)
 		}
-		return arg0
+		return append(arg0, snap...)
 
 	case "copy": // copy([]T, []T) int or copy([]byte, string) int
 		var src []value
